@@ -496,6 +496,32 @@ func sliceParserRule(c *core.Ctx, fn *ssa.Function, sums []parserSummary) {
 				s.hdrLen, s.tagLo, s.tagHi, s.lenLo, s.lenHi, s.valueLenIsLength, s.keyIsTag))
 		}
 	}
+	// refusals are tight: an error is returned only where the input really is too short for the header (fewer than 4 octets
+	// after the entry start) or for the announced value - otherwise a well-formed sequence would be refused.
+	if ok1 && ok2 && src1 == src2 && fields["length"] != nil {
+		ln := p.LenOf(src1)
+		vlen := p.LinOf(stripConv(fields["length"]))
+		nErr := 0
+		for _, b := range fn.Blocks {
+			ret, isR := b.Instrs[len(b.Instrs)-1].(*ssa.Return)
+			if !isR || len(ret.Results) != 2 || paths.IsNilConst(ret.Results[1]) {
+				continue
+			}
+			nErr++
+			// goal A: tagOff + 3 - len >= 0 (fewer than 4 octets from the entry start)
+			gA := tagOff.Add(prover.Const(3), 1).Add(ln, -1)
+			// goal B: tagOff + 4 + vlen - 1 - len >= 0 (value does not fit)
+			gB := tagOff.Add(prover.Const(3), 1).Add(vlen, 1).Add(ln, -1)
+			okA, _ := p.Prove(b, gA, nil)
+			okB, _ := p.Prove(b, gB, nil)
+			if !okA && !okB {
+				problems = append(problems, "an error is returned at "+c.Prog.Pos(ret.Pos())+" although it is not established that fewer than 4 header octets or fewer than `length` value octets remain: a well-formed sequence can be refused")
+			}
+		}
+		if nErr == 0 {
+			problems = append(problems, "no refusal of a truncated entry found")
+		}
+	}
 	// partial entry => error, clean end => success: every return inside the loop returns a nil container
 	if len(problems) == 0 {
 		c.OK("C16-AGREE", key+"~smgp.ReadOptions", pos, "tag@+0, length@+2, value@+4 of `length` octets, keyed by tag - same layout as ReadOptions")
@@ -548,6 +574,42 @@ func serialRule(c *core.Ctx, rel, typ, meth, entryMeth string) {
 		bad = "the serialiser ranges over something other than its receiver"
 	case appends != 1 || entryCalls != 1:
 		bad = fmt.Sprintf("the loop body is not `acc = append(acc, entry.%s()...)` for the ranged entry (appends=%d, entry calls=%d)", entryMeth, appends, entryCalls)
+	}
+	// every entry is emitted: from the loop body's entry the append is reached without any conditional branch
+	if bad == "" {
+		var appendBlock *ssa.BasicBlock
+		for _, b := range fn.Blocks {
+			for _, ins := range b.Instrs {
+				if call, ok := ins.(*ssa.Call); ok {
+					if bi, ok := call.Call.Value.(*ssa.Builtin); ok && bi.Name() == "append" {
+						appendBlock = b
+					}
+				}
+			}
+		}
+		for _, b := range fn.Blocks {
+			ifi, ok := b.Instrs[len(b.Instrs)-1].(*ssa.If)
+			if !ok {
+				continue
+			}
+			ex, ok := ifi.Cond.(*ssa.Extract)
+			if !ok || ex.Index != 0 {
+				continue
+			}
+			if nx, ok := ex.Tuple.(*ssa.Next); !ok || nx.Iter != ssa.Value(ranges[0]) {
+				continue
+			}
+			cur := b.Succs[0]
+			for i := 0; i < 8 && cur != appendBlock; i++ {
+				if _, isJump := cur.Instrs[len(cur.Instrs)-1].(*ssa.Jump); !isJump {
+					break
+				}
+				cur = cur.Succs[0]
+			}
+			if cur != appendBlock {
+				bad = "an entry can be skipped: the append is not reached unconditionally from the start of the loop body (a filter inside the serialiser drops entries that the parser would have delivered)"
+			}
+		}
 	}
 	// the accumulator returned must be the loop's accumulator
 	c.Decide(bad == "", "C16-SERIAL", key, pos, "one range over the receiver, one append of entry."+entryMeth+"() per entry", bad)
